@@ -8,7 +8,7 @@ import json
 import os
 import random
 
-from . import core, fncases
+from . import core, suite, fncases
 from .values import enc
 
 
@@ -80,6 +80,9 @@ def main(tier, replay=None):
     rng = random.Random(run.seed)
     cases += [rand_case(rng) for _ in range(4000 if quick else 100000)]
     obs = fncases.observe(lib, cases, ranges=True)
+    so = suite.observations({'CHOOSE','INDEX','MATCH'}, len(obs) + 1)   # the same functions as the repository's own tests call them
+    run.extra['calls_from_repository_tests'] = len(so)
+    obs += so
     CH = 25000
     for k in range(0, len(obs), CH):
         part = obs[k:k + CH]
